@@ -4,8 +4,21 @@
 // stdout: obs|obs|...  \t  for every S/T command the virtual time (us) of each diag_log marker: t,t,..|t,..
 //   obs:  L | LPARSEFAIL | J | S<result>:<state>:<clock before>-<clock after>:<events> | T<step>+<step>..:<events> | A<result>:<state>
 //   events as in h_vm.cpp (level:code of everything at info level or worse, M<text> after diag_log / dropped value)
+//
+// C API histories (C11): one instance of the C API of src/export/sqfvm.cpp created WITH the time limit, the same virtual clock.
+// stdin:  "api;<max_runtime_ms>;<tick_us>;<full|basic>\t<cmd>@<cmd>@..."
+//   cmd: K<hex type char>:<hex text>   sqfvm_call(instance, call data = number of the command, type, text, size of the text)
+//        G<hex text>                   sqfvm_load_config
+//        Q                             sqfvm_status
+//        J<us>                         the host lets that much time pass
+// stdout: obs|obs|...\t
+//   obs:  K<return value>:<sqfvm_status after the call>:<clock before>-<clock after>:<events>  (G alike)  |  Q<status>  |  J
+//   events: one item per callback, each followed by a comma: <severity>:M<text> for a diag_log line, <severity>:TL for the
+//           'maximum runtime reached' message (recognised by the text logmessage::runtime::MaximumRuntimeReached formats for this
+//           limit, whatever the location in front of it), -1:R for the result text of type 'p', <severity>:- for everything else
 #define VH_VIRTUAL_CLOCK
 #include "sqfrt.hpp"
+#include "export/sqfvm.h"
 using namespace vh;
 
 // an address-space limit cannot be combined with AddressSanitizer's shadow mappings
@@ -104,6 +117,77 @@ static std::string events(SVM& vm, std::string& times)
     return o;
 }
 
+// ---- C API histories
+static std::string g_api_events;
+static std::vector<std::string> g_api_tl_tails;
+static void api_log(void*, void*, int32_t sev, const char* msg, uint32_t len)
+{
+    std::string text(msg ? msg : "", msg ? len : 0);
+    g_api_events += std::to_string(sev) + ":";
+    bool tl = false;
+    for (auto& t : g_api_tl_tails) if (text.size() >= t.size() && text.compare(text.size() - t.size(), t.size(), t) == 0) tl = true;
+    auto p = text.find("[DIAG_LOG] ");
+    if (sev == -1) g_api_events += "R";
+    else if (tl) g_api_events += "TL";
+    else if (p != std::string::npos)
+    {
+        std::string t = text.substr(p + 11);
+        for (auto& ch : t) if (ch == '\t' || ch == '\n' || ch == '\r' || ch == '|' || ch == ',' || ch == '<' || ch == '>') ch = ' ';
+        g_api_events += "M<" + t + ">";
+    }
+    else g_api_events += "-";
+    g_api_events += ",";
+}
+static std::string api_history(long max_ms, long tick, const std::string& set, const std::vector<std::string>& cmds)
+{
+    vh::g_clock_ns = 0;
+    vh::g_clock_tick_ns = tick * 1000;
+    // what the message of the limit looks like behind its location, for the limit the instance is created with (the conversion
+    // from float seconds may round to a neighbouring millisecond)
+    g_api_tl_tails.clear();
+    for (long ms = std::max(0L, max_ms - 1); ms <= max_ms + 1; ms++)
+    {
+        LogLocationInfo loc(std::string(), 0, 0);
+        std::string ref = logmessage::runtime::MaximumRuntimeReached(loc, std::chrono::milliseconds(ms)).formatMessage();
+        std::string pre = loc.format();
+        g_api_tl_tails.push_back(ref.size() > pre.size() ? ref.substr(pre.size()) : ref);
+    }
+    float secs = (float)max_ms / 1000.0f;
+    void* inst = set == "basic" ? sqfvm_create_instance_basic((void*)7, api_log, secs) : sqfvm_create_instance((void*)7, api_log, secs);
+    if (!inst) return "NOINSTANCE\t";
+    std::string obs;
+    bool first = true;
+    long k = 0;
+    for (auto& c : cmds)
+    {
+        if (c.empty()) continue;
+        if (!first) obs += "|";
+        first = false;
+        k++;
+        if (c[0] == 'J') { vh::g_clock_ns += std::stoll(c.substr(1)) * 1000LL; obs += "J"; }
+        else if (c[0] == 'Q') { obs += "Q" + std::to_string(sqfvm_status(inst)); }
+        else if (c[0] == 'K' || c[0] == 'G')
+        {
+            auto a = split(c.substr(1), ':');
+            if (a.size() != (c[0] == 'K' ? 2u : 1u)) { obs += "BADCMD"; continue; }
+            std::string ty = c[0] == 'K' ? unhex(a[0]) : std::string();
+            std::string text = unhex(a.back());
+            std::string buf = text; buf.push_back('\0');
+            g_api_events.clear();
+            long long t0 = vh::g_clock_ns / 1000;
+            long r = c[0] == 'K' ? (long)sqfvm_call(inst, (void*)(intptr_t)k, ty.empty() ? '\0' : ty[0], buf.data(), (uint32_t)text.size())
+                                 : (long)sqfvm_load_config(inst, buf.data(), (uint32_t)text.size());
+            long long t1 = vh::g_clock_ns / 1000;
+            int st = (int)sqfvm_status(inst);
+            obs += std::string(1, c[0]) + std::to_string(r) + ":" + std::to_string(st) + ":" + std::to_string(t0) + "-" + std::to_string(t1) + ":" + g_api_events;
+        }
+        else obs += "BADCMD";
+    }
+    sqfvm_destroy_instance(inst);
+    for (auto& ch : obs) if (ch == '\t') ch = ' ';
+    return obs + "\t";
+}
+
 int main()
 {
     std::string line;
@@ -112,6 +196,16 @@ int main()
         auto f = split(line);
         if (f.size() != 2) { std::cout << "BADLINE\n"; continue; }
         auto cfg = split(f[0], ';');
+        if (cfg.size() == 4 && cfg[0] == "api")
+        {
+            long max_ms = std::stol(cfg[1]), tick = std::stol(cfg[2]);
+            std::string set = cfg[3];
+            auto cmds = split(f[1], '@');
+            auto out = forked([&]() -> std::string { return api_history(max_ms, tick, set, cmds); }, 20000, MEM_MB);
+            if (out.find('\t') == std::string::npos) out += "\t";
+            std::cout << out << "\n";
+            continue;
+        }
         if (cfg.size() != 3) { std::cout << "BADCFG\n"; continue; }
         long max_ms = std::stol(cfg[0]), tick = std::stol(cfg[1]);
         size_t max_loop = (size_t)std::stoul(cfg[2]);
